@@ -640,6 +640,21 @@ func stripOAIGenForRef(opts *FlattenOpts, k string, r *newRef) (bool, error) {
 	debugLog("removing definition %s", path.Base(r.path))
 	delete(opts.Swagger().Definitions, path.Base(r.path))
 
+	// JSON pointers to some place inside the removed definition (e.g. left there when another OAIGen definition
+	// has been merged into it) now point inside the first parent
+	for key, ref := range New(opts.Swagger()).references.allRefs {
+		if !strings.HasPrefix(ref.String(), r.path+"/") {
+			continue
+		}
+
+		replacedWithComplex = true
+		moved := spec.MustCreateRef(pr[0] + strings.TrimPrefix(ref.String(), r.path))
+		debugLog("rewrite pointer at %s with ref: %s", key, moved.String())
+		if err := replace.UpdateRef(opts.Swagger(), key, moved); err != nil {
+			return false, err
+		}
+	}
+
 	// propagate changes in ref index for keys which have this one as a parent
 	for kk, value := range opts.flattenContext.newRefs {
 		if kk == k || !value.isOAIGen || value.resolved {
